@@ -42,21 +42,31 @@ def nontrivial(evs):
     return False
 
 
-def _dedupe(behs, rnd):
-    seen, out = set(), []
-    for b in behs:
-        k = json.dumps(b, sort_keys=True)
-        if k not in seen:
+def _select(quota):
+    """De-duplicate (a nondeterministic model prints one input once per outcome), keep EVERY behaviour without a
+    faulted call (all un-faulted words of the abstract graph, incl. repeated adds of one container with and without
+    a delete in between) and fill up to `quota` with a seeded sample of the faulted ones."""
+    def f(behs, rnd):
+        seen, plain, faulted = set(), [], []
+        for b in behs:
+            k = json.dumps(b, sort_keys=True)
+            if k in seen:
+                continue
             seen.add(k)
-            out.append(b)
-    return out
+            (faulted if any(x.get("kind") for x in b) else plain).append(b)
+        n = max(quota - len(plain), quota // 3)
+        if len(faulted) > n:
+            faulted = rnd.sample(faulted, n)
+        return plain + faulted
+    return f
 
 
 RULE = ("behaviours = one per transition of I_CNI's abstract graph (pool capacities, addresses per handle, fault plan "
         "used so far): every (store state, add/del of one of 3 containers - two of them of the same pod -, fault "
         "position: the k-th datastore call fails / the k-th compare-and-swap call conflicts) and, after every faulted "
-        "call, every un-faulted call (TLC, VIEW + ACTION_CONSTRAINT; duplicates over model outcomes removed; thinned by "
-        "seed), with a v6 pool of one address and without a v6 pool so that dual-stack adds fail half-way; plus TLC "
+        "call, every un-faulted call (TLC, VIEW + ACTION_CONSTRAINT; duplicates over model outcomes removed; all "
+        "un-faulted words kept - they include repeated adds of one container with and without a delete in between -, "
+        "faulted ones thinned by seed), with a v6 pool of one address and without a v6 pool so that dual-stack adds fail half-way; plus TLC "
         "random walks with several faulted calls; plus seeded random traces over 2-5 containers / 1-3 pods, pools of "
         "1-64 addresses, cool-down on or off, closed by un-faulted deletes of every container.  A trace is non-trivial "
         "if a delete succeeds and releases something after an earlier failed add/delete, or succeeds on a container "
@@ -74,7 +84,7 @@ P = {
     "design": [{"module": "I_CNI", "cfg": "MC_I_CNI_quick.cfg", "thorough_cfg": "MC_I_CNI.cfg", "workers": 4,
                 "timeout": 600, "thorough_timeout": 1500, "heap": "3g"}],
     "gen": {"module": "Gen_CNI", "cfg": "Gen_cover_quick.cfg", "thorough_cfg": "Gen_cover.cfg", "workers": 4,
-            "select": _dedupe, "max": 600, "thorough_max": 15000, "timeout": 600, "thorough_timeout": 1500, "heap": "3g"},
+            "select": _select(600), "timeout": 600, "thorough_timeout": 1500, "heap": "3g"},
     "driver": {"cmd": "cni"},
     "n_random": (200, 4000),
     "trace": {"module": "T_CNI", "cfg": "T_CNI.cfg", "heap": "4g", "timeout": 900},
@@ -101,7 +111,9 @@ def _drift(ctx):
 
 
 def run(ctx):
-    pipeline.standard_check(ctx, P)
+    P1 = dict(P)
+    P1["gen"] = dict(P["gen"], select=_select(600 if ctx.quick else 15000))
+    pipeline.standard_check(ctx, P1)
     _drift(ctx)
     # second generator: TLC random walks (-simulate) with several faulted calls, 3 containers, 4 pool layouts
     if not ctx.replay and not ctx.violations:
@@ -179,7 +191,25 @@ def selftest(ctx):
                     and evs[i + 1]["t"] == e["t"] and not (_handles(reset, e["c"]) & _handles(reset, evs[i + 1]["c"])):
                 return evs[:i] + evs[i + 1:]
 
+    def add_frees_held(evs):
+        # an add (of the same container) after which an address returned by its earlier successful add is gone
+        reset, held = None, {}
+        for i, e in enumerate(evs):
+            if e["ev"] == "reset":
+                reset, held = e, {}
+            elif e["ev"] == "del":
+                held.pop(e["c"], None)
+            elif e["ev"] == "add":
+                h = reset["net"] + "." + e["c"]
+                old = [a for a in held.get(e["c"], []) if any(p["a"] == a and p["h"] == h and not p["cooling"] for p in e["alloc"])]
+                if old:
+                    e["alloc"] = [p for p in e["alloc"] if p["a"] != old[0]]
+                    return evs
+                if e["ok"]:
+                    held.setdefault(e["c"], []).extend(x["a"] for x in e["ips"])
+
     return pipeline.corruption_selftest(ctx, P, [
+        ("add_frees_held", add_frees_held),
         ("leave_address", leave_address), ("drop_returned", drop_returned),
         ("returned_not_recorded", returned_not_recorded), ("free_foreign", free_foreign),
         ("clean_delete_fails", clean_delete_fails), ("drop_call", drop_call)], n_random=40)
@@ -194,7 +224,9 @@ MANIFEST = dict(
          "plus the un-faulted calls after each fault, and random multi-fault walks; after every real call the result "
          "and the store's allocations-by-handle are validated by TLC against P_CNI: a successful add holds one "
          "address per requested family under <net>.<containerID>; after a successful delete nothing is allocated to "
-         "<net>.<containerID> or <namespace>.<pod>; an un-faulted delete of a clean container succeeds; no call "
+         "<net>.<containerID> or <namespace>.<pod>; the addresses returned by successful adds stay allocated to the "
+         "container's handle until a delete of that container releases them (a later add, successful or rolled back, "
+         "never frees them); an un-faulted delete of a clean container succeeds; no call "
          "touches another container's addresses.",
     design_ref="3.3 C38",
     technique="TLA+ spec (P_CNI/I_CNI) + TLC; TLC-generated add/del words with fault positions replayed on the real "
